@@ -106,7 +106,7 @@ func makeKnots(class, n int, r *vk.SplitMix) []float64 {
 		for i := range xs {
 			xs[i] = acc
 			if r.Intn(3) == 0 {
-				acc += 1000 * ulp(acc+0.5) // a near-duplicate: 10^3 ulp apart
+				acc += 1000 * ulp(math.Max(math.Abs(acc), 0.25)) // a near-duplicate: about 10^3 ulp apart
 			} else {
 				acc += float64(1+r.Intn(32)) / 16
 			}
@@ -172,6 +172,7 @@ func makeData(class int, xs []float64, coef []float64, r *vk.SplitMix) []float64
 // value and derivative at the midpoint; e2, e3 bound the reconstruction error
 // caused by the rounding of the library's Horner evaluations.
 type cubicSeg struct {
+	ok             bool // false when the interval holds too few floats to probe its interior
 	dx             float64
 	a0, a1, a2, a3 float64
 	e2, e3         float64
@@ -190,9 +191,12 @@ func reconstruct(p dpredictor, x0, x1 float64) cubicSeg {
 	var s cubicSeg
 	s.dx = x1 - x0
 	xm := x0 + s.dx/2
-	if !(xm > x0 && xm < x1) {
-		xm = math.Nextafter(x0, x1)
+	if !(s.dx >= 64*ulp(math.Max(math.Abs(x0), math.Abs(x1)))) || !(xm > x0 && xm < x1) {
+		// (random knots may be adjacent floats): nothing to probe inside
+		s.a0, s.a1 = p.Predict(x0), p.PredictDerivative(x0)
+		return s
 	}
+	s.ok = true
 	t := xm - x0 // the same float subtraction the library performs
 	s.a0 = p.Predict(x0)
 	s.a1 = p.PredictDerivative(x0)
@@ -391,6 +395,10 @@ func checkInterp(c interpCase) *vk.Failure {
 	}
 	spline := c.Type == tNatural || c.Type == tClamped || c.Type == tNotAKnot
 	for i, s := range segs {
+		if !s.ok {
+			vk.Class("interp:interval-too-small-to-probe")
+			continue
+		}
 		V := s.scale(s.dx) + math.Abs(ys[i+1])
 		eV := s.e2*s.dx*s.dx + s.e3*s.dx*s.dx*s.dx
 		// the piece is one cubic: a second interior point agrees with the
@@ -421,7 +429,7 @@ func checkInterp(c interpCase) *vk.Failure {
 			k1 = tolC1Spl
 		}
 		W := V/s.dx + math.Abs(d[i+1])
-		if i+1 < len(segs) {
+		if i+1 < len(segs) && segs[i+1].ok {
 			W += segs[i+1].scale(segs[i+1].dx) / segs[i+1].dx
 		}
 		tol1 := k1*vk.Eps*W + (2*s.e2*s.dx + 3*s.e3*s.dx*s.dx)
@@ -440,6 +448,9 @@ func checkInterp(c interpCase) *vk.Failure {
 		// up to rounding) [ratio 0.1]
 		for i := 0; i+1 < len(segs); i++ {
 			s, nx := segs[i], segs[i+1]
+			if !s.ok || !nx.ok {
+				continue
+			}
 			W2 := s.scale(s.dx)/(s.dx*s.dx) + nx.scale(nx.dx)/(nx.dx*nx.dx)
 			tol := 64*vk.Eps*W2 + 2*s.e2 + 6*s.e3*s.dx + 2*nx.e2
 			calib("interp-C2-"+name, math.Abs(s.der2(s.dx)-nx.der2(0))/tol)
@@ -448,15 +459,17 @@ func checkInterp(c interpCase) *vk.Failure {
 			}
 		}
 		first, last := segs[0], segs[len(segs)-1]
-		switch c.Type {
-		case tNatural:
+		endsOK := first.ok && last.ok && (n < 4 || (segs[1].ok && segs[len(segs)-2].ok))
+		switch {
+		case !endsOK:
+		case c.Type == tNatural:
 			tolL := 64*vk.Eps*first.scale(first.dx)/(first.dx*first.dx) + 2*first.e2
 			tolR := 64*vk.Eps*last.scale(last.dx)/(last.dx*last.dx) + 2*last.e2 + 6*last.e3*last.dx
 			calib("interp-natural-bc", math.Max(math.Abs(first.der2(0))/tolL, math.Abs(last.der2(last.dx))/tolR))
 			if !(math.Abs(first.der2(0)) <= tolL) || !(math.Abs(last.der2(last.dx)) <= tolR) {
 				return vk.Failf("natural-boundary-condition", "%s: y''(left end)=%v (tol %.3g), y''(right end)=%v (tol %.3g)", desc, first.der2(0), tolL, last.der2(last.dx), tolR)
 			}
-		case tClamped:
+		case c.Type == tClamped:
 			// y' = 0 at both ends: the end slopes come out of the solve
 			// [ratio 0.01]
 			tolL := tolC1Spl * vk.Eps * first.scale(first.dx) / first.dx
@@ -465,7 +478,7 @@ func checkInterp(c interpCase) *vk.Failure {
 			if !(math.Abs(d[0]) <= tolL) || !(math.Abs(d[n-1]) <= tolR) {
 				return vk.Failf("clamped-boundary-condition", "%s: y'(left end)=%v (tol %.3g), y'(right end)=%v (tol %.3g)", desc, d[0], tolL, d[n-1], tolR)
 			}
-		case tNotAKnot:
+		case c.Type == tNotAKnot:
 			if n >= 4 {
 				a, b := segs[0], segs[1]
 				W3 := a.scale(a.dx)/(a.dx*a.dx*a.dx) + b.scale(b.dx)/(b.dx*b.dx*b.dx)
@@ -547,6 +560,9 @@ func checkInterp(c interpCase) *vk.Failure {
 	// monotone variant: no new extrema on any interval
 	if c.Type == tFB {
 		for i, s := range segs {
+			if !s.ok {
+				continue
+			}
 			lo, hi := math.Min(ys[i], ys[i+1]), math.Max(ys[i], ys[i+1])
 			V := s.scale(s.dx) + math.Abs(ys[i+1])
 			tol := 16 * vk.Eps * V
